@@ -109,7 +109,7 @@ def oracle_contract(case):
 
 @st.composite
 def cases(draw, size, depth):
-    prog = draw(gp.programs(n_inputs=(1, 3), size=size, depth=depth, profile=draw(st.sampled_from(["core", "collections", "collections", "tickets", "combs", "combs"]))))
+    prog = draw(gp.programs(n_inputs=(1, 3), size=size, depth=depth, profile=draw(st.sampled_from(["core", "collections", "collections", "tickets", "tickets", "combs", "combs"]))))
     return {"inputs": prog["inputs"], "code": prog["code"], "env": xc.env_to_json(draw(gp.env_strategy()))}
 
 
